@@ -57,3 +57,46 @@ def check_wrap_function(ctx, rid, fn, site):
         ctx.ob(rid, site, "negative result is value - (1 << bits)", okr, construct="neg-result", node=node)
     if not found:
         ctx.undecided(rid, site, "sign threshold test not recognised")
+
+
+def get_or_create(fn, ctor_pred):
+    """Get-or-create idiom around a registry dict.  Finds the statement that constructs the new object
+    (`v = Ctor(...)` with ctor_pred(call)), and reports:
+      created-var, registry text, key text,
+      guarded   : creation happens only when `key not in registry` (or through registry.setdefault whose RESULT is used),
+      stored    : the new object is stored into registry[key] on that path,
+      reused    : on the path where the key is present the value comes from registry[key],
+    Returns dict or None when no construction site is found."""
+    import ast
+    from .core import norm, walk_no_nested, last_name
+    from . import sym
+    mk = [n for n in walk_no_nested(fn) if isinstance(n, ast.Assign) and isinstance(n.value, ast.Call) and ctor_pred(n.value) and isinstance(n.targets[0], ast.Name)]
+    sd = [n for n in walk_no_nested(fn) if isinstance(n, ast.Assign) and isinstance(n.value, ast.Call) and last_name(n.value) == "setdefault" and len(n.value.args) == 2
+          and isinstance(n.value.args[1], ast.Call) and ctor_pred(n.value.args[1])]
+    if sd and not mk:
+        # v = registry.setdefault(key, Ctor(...)): atomic get-or-create whose result is used
+        n = sd[0]
+        return {"var": norm(n.targets[0]), "registry": norm(n.value.func.value), "key": norm(n.value.args[0]), "guarded": True, "stored": True, "reused": True, "node": n, "form": "setdefault-result"}
+    if len(mk) != 1:
+        return None
+    n = mk[0]
+    v = n.targets[0].id
+    body = n._parent
+    siblings = getattr(body, "body", []) if n in getattr(body, "body", []) else getattr(body, "orelse", [])
+    stores = [s for s in siblings if isinstance(s, ast.Assign) and isinstance(s.targets[0], ast.Subscript) and norm(s.value) == v]
+    res = {"var": v, "node": n, "form": "if-absent", "registry": None, "key": None, "guarded": False, "stored": bool(stores), "reused": False}
+    if stores:
+        res["registry"], res["key"] = norm(stores[0].targets[0].value), norm(stores[0].targets[0].slice)
+    else:
+        # setdefault used only for its side effect: registry.setdefault(key, v)
+        for s in siblings:
+            if isinstance(s, ast.Expr) and isinstance(s.value, ast.Call) and last_name(s.value) == "setdefault" and len(s.value.args) == 2 and norm(s.value.args[1]) == v:
+                res["registry"], res["key"] = norm(s.value.func.value), norm(s.value.args[0])
+                res["form"] = "setdefault-discarded"
+    if res["registry"]:
+        cj = [(" ".join(norm(e).split()), pol) for e, pol in sym.conjuncts(n, fn, {})]
+        want = "%s not in %s" % (res["key"], res["registry"])
+        res["guarded"] = any(pol and t == want for t, pol in cj) or any((not pol) and t == "%s in %s" % (res["key"], res["registry"]) for t, pol in cj)
+        look = "%s[%s]" % (res["registry"], res["key"])
+        res["reused"] = any(isinstance(a, ast.Assign) and norm(a.targets[0]) == v and norm(a.value) in (look, "%s.get(%s)" % (res["registry"], res["key"])) for a in walk_no_nested(fn))
+    return res
